@@ -420,6 +420,7 @@ class C14(OptEngineBase):
     def generate(self, rng, tier, index):
         config = draw_config(rng)
         config["logger"] = {"kind": "default"}
+        config["warnings"] = {"kind": "error_all" if rng.random() < 0.12 else "always"}  # a host running with -W error
         workload, meta = gen_file(rng)
         two = rng.random() < 0.35
         if two:
